@@ -34,7 +34,8 @@ Inductive stmt :=
 | SEmit (e : expr)
 | SLocal (init : expr) (body : stmt)      (* { l := init; body } : block with one local => PushEnv / PopEnv *)
 | SIf (e : expr) (a b : stmt)             (* if e > 0 { a } else { b } *)
-| SCall (f : nat).                        (* f() : function without parameters and results *)
+| SCall (f : nat)                         (* f() : function without parameters and results *)
+| SBreak.                                 (* breakpoint statement: "break" or _ = "break" (fast/debug.go isBreakpoint) *)
 
 (* ---------- compiled code; `dbg` is the DebugComp pointer that only OptDebugger makes non-nil ---------- *)
 Inductive code :=
@@ -45,7 +46,9 @@ Inductive code :=
 | CEmit (e : expr)
 | CPushEnv (dbg : option nat) (init : expr) (body : code)
 | CIf (e : expr) (a b : code)
-| CCall (f : nat).
+| CCall (f : nat)
+| CBreak (comp : option nat).  (* Comp.breakpoint(): the closure captures the COMPILING Comp c (never nil, whatever the
+                                  options) - it does not go through Env.DebugComp, which only OptDebugger fills in *)
 
 Record cfunc := mkFun { f_dbg : option nat; f_body : code }.
 
@@ -62,6 +65,7 @@ Fixpoint compile (o : opts) (depth : nat) (s : stmt) : code :=
   | SLocal init body => CPushEnv (debugC o (S depth)) init (compile o (S depth) body)
   | SIf e a b => CIf e (compile o depth a) (compile o depth b)
   | SCall f => CCall f
+  | SBreak => CBreak (Some depth)
   end.
 
 Definition compile_fun (o : opts) (s : stmt) : cfunc := mkFun (debugC o 0) (compile o 0 s).
@@ -178,6 +182,14 @@ Fixpoint exec (fuel : nat) (funs : list cfunc) (c : code) (en : env) (glob : Z) 
               | ROk _ _ _ => RStuck
               | r => r
               end
+          | None => RStuck
+          end
+      | CBreak comp =>
+          (* ir := Interp{c, env}; ir.debug(true): no debugger was installed with SetDebugger => Comp.Warnf (once),
+             run.Debugger = stubDebugger{} => DebugOpContinue => SigNone: env.IP++, next statement.
+             Warnf dereferences the Comp: a nil Comp is a nil-pointer panic (not a value of the mini language) *)
+          match comp with
+          | Some _ => ROk en glob evs
           | None => RStuck
           end
       end
